@@ -152,6 +152,14 @@ Definition p_link (k : option uent) (a b : uent) (x : Q) : res :=
       end
   end.
 
+(** ** Masked arrays: a mask hides cells, it does not change numbers.  (prepare wraps the payload
+       with the Info's mask, core.py 73-82; the harness judges every unmasked cell with the scalar ops.) *)
+Fixpoint mask_with (m : list bool) (l : list Q) : list (option Q) :=
+  match m, l with
+  | b :: mt, x :: lt => (if b then None else Some x) :: mask_with mt lt
+  | _, _ => []
+  end.
+
 (** ** Sessions *)
 Inductive op :=
 | Clear                                               (* clear_units_cache() *)
